@@ -44,6 +44,17 @@ func randValidCfg(rng *rand.Rand) *CfgSpec {
 		}
 	}
 	c.Origins = pickSome(rng, pool, 1, 5)
+	if rng.IntN(3) == 0 { // a pattern next to one that covers it / is covered by it
+		i := rng.IntN(len(c.Origins))
+		if rel := relatedOriginAtoms(c.Origins[i], pool); len(rel) > 0 {
+			f := choose(rng, rel)
+			if rng.IntN(2) == 0 {
+				c.Origins = append(c.Origins[:i+1], append([]OAtom{f}, c.Origins[i+1:]...)...)
+			} else {
+				c.Origins = append(c.Origins[:i], append([]OAtom{f}, c.Origins[i:]...)...)
+			}
+		}
+	}
 	if !restricted && rng.IntN(4) == 0 {
 		c.Origins[rng.IntN(len(c.Origins))] = oStarAtom
 	}
@@ -133,7 +144,7 @@ var cfgInjectors = []struct {
 				dropStarO(&c.Origins)
 			}
 		}
-		insertAt(rng, &c.Origins, choose(rng, insecureOriginAtoms))
+		insertWithRelative(rng, c, choose(rng, insecureOriginAtoms))
 		// insecure atoms that were legal under the tolerate flag now count as well: recomputed by violations()
 	}},
 	{"origin-psl", func(rng *rand.Rand, c *CfgSpec) {
@@ -142,7 +153,7 @@ var cfgInjectors = []struct {
 		if a.Insecure && (c.Cred || c.PNA != pnaOff) && !c.TolInsecure {
 			a = pslOriginAtoms[0]
 		}
-		insertAt(rng, &c.Origins, a)
+		insertWithRelative(rng, c, a)
 	}},
 	{"pna-both", func(rng *rand.Rand, c *CfgSpec) { c.PNA = pnaBoth; dropStarO(&c.Origins) }},
 	{"method-invalid", func(rng *rand.Rand, c *CfgSpec) { insertAt(rng, &c.Methods, choose(rng, invalidMethodAtoms)) }},
@@ -156,6 +167,37 @@ var cfgInjectors = []struct {
 	{"resphdr-prohibited", func(rng *rand.Rand, c *CfgSpec) { insertAt(rng, &c.RespHdrs, choose(rng, prohibitedRespHdrAtoms)) }},
 	{"resphdr-star-vs-cred", func(rng *rand.Rand, c *CfgSpec) { c.Cred = true; dropStarO(&c.Origins); insertAt(rng, &c.RespHdrs, hStarAtom) }},
 	{"status", func(rng *rand.Rand, c *CfgSpec) { c.Status = choose(rng, invalidStatus) }},
+}
+
+// insertWithRelative inserts the (violating) atom a into c.Origins and, half of the time, also a related atom that is
+// itself free of violations under c's switches, before or after it.
+func insertWithRelative(rng *rand.Rand, c *CfgSpec, a OAtom) {
+	insertAt(rng, &c.Origins, a)
+	if rng.IntN(2) == 0 {
+		return
+	}
+	restricted := c.Cred || c.PNA != pnaOff
+	var ok []OAtom
+	for _, f := range relatedOriginAtoms(a, allValidKindOriginAtoms()) {
+		if f.Insecure && restricted && !c.TolInsecure || f.PSL && !c.TolPSL {
+			continue
+		}
+		ok = append(ok, f)
+	}
+	if len(ok) == 0 {
+		return
+	}
+	f := choose(rng, ok)
+	for i := range c.Origins {
+		if c.Origins[i].Raw == a.Raw {
+			if rng.IntN(3) > 0 { // mostly before: what an implementation remembers comes from earlier patterns
+				c.Origins = append(c.Origins[:i], append([]OAtom{f}, c.Origins[i:]...)...)
+			} else {
+				c.Origins = append(c.Origins[:i+1], append([]OAtom{f}, c.Origins[i+1:]...)...)
+			}
+			return
+		}
+	}
 }
 
 func insertAt[T any](rng *rand.Rand, s *[]T, v T) {
